@@ -948,14 +948,15 @@ impl<C: BgpConfig + Send> Session<C> {
 
                 let received_addpaths = open_msg.addpath_families_vec()
                     .map_err(|_| Error { msg: "failed to parse addpath caps" })?;
-                let intersection = received_addpaths.iter().filter(|(fam, dir)|{
-                    matches!(
-                        dir,
-                        AddpathDirection::Send |
-                        AddpathDirection::SendReceive
-                    ) &&
+                // Our own OPEN advertises SendReceive for every family in
+                // config.addpath() (see send_open), so the negotiated
+                // direction is the merge of that with what the peer sent.
+                let intersection = received_addpaths.iter().filter(|(fam, _dir)|{
                     self.config.addpath().contains(fam)
-                }).map(|(fam, dir)| AddpathFamDir::new(*fam, *dir)).collect::<Vec<_>>();
+                }).filter_map(|(fam, dir)| {
+                    AddpathDirection::SendReceive.merge(*dir)
+                        .map(|merged| AddpathFamDir::new(*fam, merged))
+                }).collect::<Vec<_>>();
                 debug!("addpath intersection: {:?}", &intersection);
 
 
@@ -1246,14 +1247,15 @@ impl<C: BgpConfig + Send> Session<C> {
 
                 let received_addpaths = open_msg.addpath_families_vec()
                     .map_err(|_| Error { msg: "failed to parse addpath caps" })?;
-                let intersection = received_addpaths.iter().filter(|(fam, dir)|{
-                    matches!(
-                        dir,
-                        AddpathDirection::Send |
-                        AddpathDirection::SendReceive
-                    ) &&
+                // Our own OPEN advertises SendReceive for every family in
+                // config.addpath() (see send_open), so the negotiated
+                // direction is the merge of that with what the peer sent.
+                let intersection = received_addpaths.iter().filter(|(fam, _dir)|{
                     self.config.addpath().contains(fam)
-                }).map(|(fam, dir)| AddpathFamDir::new(*fam, *dir)).collect::<Vec<_>>();
+                }).filter_map(|(fam, dir)| {
+                    AddpathDirection::SendReceive.merge(*dir)
+                        .map(|merged| AddpathFamDir::new(*fam, merged))
+                }).collect::<Vec<_>>();
                 debug!("addpath intersection: {:?}", &intersection);
 
                 let negotiated = NegotiatedConfig {
